@@ -138,6 +138,27 @@ def r2(cx):
     if not any(all(body.dominates(b, d) for d, _ in dup2s if Q.arg_names(body, du, _)[1] == 'writer') for b, t in rd):
         cx.violation(body.root, 'next-reader-open', "the read end of this command's output pipe is not closed first",
                      loc=body.loc(body.d))
+    # ... and on EVERY path on which the command is run: from the edge where the next pipe is found (self.next is Some) no path
+    # reaches the Ok return without close(reader) - whatever number the writer happens to have (with stdin and stdout closed
+    # in the shell pipe() returns (0, 1): the writer is in place, the reader must be closed all the same or the command keeps
+    # the read end of its own output pipe as its standard input and never sees EOF / EPIPE)
+    oks = [b for b, j, st in Q.find_aggregates(body, 'core::result::Result', 'Ok') if st['lhs']['l'] == 0 and not st['lhs'].get('p')]
+    if not oks:
+        # the function ends in a tail call whose Result is returned as it is: every return counts (close(reader) is the first fallible step)
+        oks = list(body.return_blocks())
+    cx.require(oks, 'no return found in move_to_stdin_stdout')
+    starts = set()
+    for b, t in rd:
+        for org, lab, (u, v) in Q.dominating_conditions(F, body, du, b):
+            if lab == ('variant', 'Some') and org['k'] == 'discr' and any(isinstance(e, dict) and e.get('f') == 'next' for e in org['pl'].get('p') or []):
+                starts.add(v)
+    if rd:
+        cx.require(starts, 'the test of self.next that guards close(reader) was not recognised')
+        pth = Q.must_pass(body, sorted(starts), {b for b, t in rd}, goal_blocks=set(oks))
+        if pth:
+            cx.violation(body.root, 'path-keeps-next-reader', "a path on which the next pipe exists returns Ok without closing the read end of "
+                         "this command's output pipe (a test other than `self.next is Some` decides whether it is closed)",
+                         loc=body.loc(body.d), path=Q.render_path(body, pth))
 
 
 @RS.rule('C14.R3', 'K-GUARD', 'write_all returns Ok only on an empty remainder and advances by the reported count; read_all_to returns Ok only on a zero-length read')
@@ -275,6 +296,19 @@ def r4(cx):
     for b, t in muts:
         cx.violation(body.root, 'mutates-output:%s' % pp.callee(t).split('::')[-1], 'the substitution output is edited by %s'
                      % pp.callee(t), loc=body.loc(t))
+    # ... nor of the byte buffer before it becomes a String (seed C14-s10: `result.retain(|&b| b != 0)` drops NUL bytes and turns a
+    # newline that was followed only by NULs into a trailing one): between read_all_to and the conversion the collected bytes are
+    # handed on as they are - no element-removing / reordering Vec or iterator-filter operation in the function that converts them
+    bmuts = Q.find_calls(body, [Q.re.compile(r'^alloc::vec::Vec::<T, A>::(pop|remove|swap_remove|retain|retain_mut|truncate|clear|drain|'
+                                             r'dedup\w*|insert|splice|split_off|extract_if|resize\w*)$'),
+                                Q.re.compile(r'::Iterator::(filter|filter_map|skip\w*|take\w*|step_by|rev)$'),
+                                Q.re.compile(r'^core::slice::<impl \[T\]>::(reverse|sort\w*|rotate_\w+|fill\w*|swap)$')])
+    for b, t in bmuts:
+        cx.violation(body.root, 'edits-collected-bytes:%s' % pp.callee(t).split('::')[-1], 'the bytes collected from the command are edited by '
+                     '%s before they become the result: the substitution must deliver the output complete and in order, minus trailing '
+                     'newlines only' % pp.callee(t), loc=body.loc(t))
+    cx.site('%s: no element-removing operation on the collected bytes (%d String mutators, %d Vec/iterator editors found)'
+            % (body.fn, len(muts), len(bmuts)))
 
 
 @RS.rule('C14.R5', 'K-ORDER', 'here-document: content is written completely, then the descriptor is rewound to offset 0')
